@@ -52,6 +52,8 @@ pub enum Op {
     /// of the store afterwards is whatever it is (the model is re-read from the store), but the
     /// store must stay self-contained and internally consistent, and its siblings untouched.
     InsertFickle(u8, FQ),
+    /// pattern-based removal (stores only; a bare index ignores it)
+    RemoveMatching(u8, QPat),
 }
 
 /// per position: the successive values shown by the inconstant term (non-empty, all of one kind)
@@ -124,6 +126,7 @@ impl Op {
             Op::MoveToHeap(_) => "move",
             Op::Grow(..) => "grow",
             Op::InsertFickle(..) => "insert_fickle",
+            Op::RemoveMatching(..) => "remove_matching",
         }
     }
 }
@@ -169,6 +172,7 @@ trait St: Clone + Sized {
     fn audit(&self) -> Vec<usize>;
     /// insert a quad of inconstant terms; the outcome (flag, error) is not judged
     fn insert_fickle(&mut self, fq: &FQ);
+    fn remove_matching(&mut self, m: &mut Model, p: &QPat) -> Result<(), String>;
     /// after `insert_fickle` (and a clean audit): internal consistency, then model := store
     fn resync(&self, m: &mut Model) -> Result<(), String>;
 }
@@ -247,6 +251,15 @@ macro_rules! st_dataset {
             fn audit(&self) -> Vec<usize> {
                 self.0.verif_term_index().verif_audit()
             }
+            fn remove_matching(&mut self, m: &mut Model, p: &QPat) -> Result<(), String> {
+                let n0 = m.quads.len();
+                m.quads.retain(|q| !p.matches(q));
+                let exp = n0 - m.quads.len();
+                match d_remove_matching(&mut self.0, p) {
+                    Ok(n) if n == exp => Ok(()),
+                    other => Err(format!("remove_matching returned {other:?}, expected Ok({exp})")),
+                }
+            }
             fn insert_fickle(&mut self, fq: &FQ) {
                 use sophia_api::dataset::MutableDataset;
                 let (s, p, o) = (Fickle::new(&fq.s), Fickle::new(&fq.p), Fickle::new(&fq.o));
@@ -323,6 +336,15 @@ macro_rules! st_graph {
             }
             fn audit(&self) -> Vec<usize> {
                 self.0.verif_term_index().verif_audit()
+            }
+            fn remove_matching(&mut self, m: &mut Model, p: &QPat) -> Result<(), String> {
+                let n0 = m.quads.len();
+                m.quads.retain(|q| !p.matches_triple(q));
+                let exp = n0 - m.quads.len();
+                match g_remove_matching(&mut self.0, p) {
+                    Ok(n) if n == exp => Ok(()),
+                    other => Err(format!("remove_matching returned {other:?}, expected Ok({exp})")),
+                }
             }
             fn insert_fickle(&mut self, fq: &FQ) {
                 use sophia_api::graph::MutableGraph;
@@ -435,6 +457,9 @@ impl<I: Index + PartialEq> St for SIndex<I> {
     }
     fn audit(&self) -> Vec<usize> {
         self.0.verif_audit()
+    }
+    fn remove_matching(&mut self, _m: &mut Model, _p: &QPat) -> Result<(), String> {
+        Ok(())
     }
     fn insert_fickle(&mut self, fq: &FQ) {
         for vals in [Some(&fq.s), Some(&fq.p), Some(&fq.o), fq.g.as_ref()].into_iter().flatten() {
@@ -574,6 +599,17 @@ fn run_history<S: St>(ops: &[Op], audit: bool) -> Outcome {
                 let i = slot(i);
                 if slots[i].is_some() {
                     pat = Some((i, p));
+                }
+            }
+            Op::RemoveMatching(i, p) => {
+                let i = slot(i);
+                if let Some(s) = slots[i].as_mut() {
+                    if sib[i] != 0 {
+                        out.nontrivial = true;
+                        out.classes.push("mutate-with-live-sibling".into());
+                    }
+                    op_err = s.remove_matching(&mut models[i], p).err();
+                    acted = Some(i);
                 }
             }
             Op::InsertFickle(i, fq) => {
@@ -832,6 +868,7 @@ fn op_strategy() -> BoxedStrategy<Op> {
         2 => sl.clone().prop_map(Op::MoveToHeap),
         2 => (sl.clone(), prop_oneof![3 => 1u16..20, 1 => 20u16..160]).prop_map(|(i, k)| Op::Grow(i, k)),
         2 => (sl.clone(), fq_strategy()).prop_map(|(i, fq)| Op::InsertFickle(i, fq)),
+        2 => (sl.clone(), pattern_strategy()).prop_map(|(i, p)| Op::RemoveMatching(i, p)),
     ]
     .boxed()
 }
